@@ -131,6 +131,17 @@ def main() -> int:
     for s in ["", "\n", "\n\n\nabc", "abc\n\n\n", "\r\nabc\r\n", "'unterminated", '"""unterminated', "/* unterminated", "// no newline at end", "'''a'b'''", '"a\\"b"', "0779j", "00", ".5.5", "5", " 5", "if0 iff if", "for_actor forever for", "break_loop break", "menu2 menu", "§l @l $v ~m"]:
         args.append((s, False, True))
         args.append((s, False, False))
+    # termination first, on a small probe (the hand-picked texts incl. unterminated strings / comments, and a few hundred of the
+    # others): a lexer that does not terminate on a class of inputs would make the full run wait 10 s for thousands of cases
+    probe = args[-42:] + args[n_exh:n_exh + 40] + args[::max(1, len(args) // 300)]
+    hung = [a for a, r in zip(probe, pmap(lex_case, probe, limit=10.0, chunk=4)) if r.get("_timeout")]
+    if hung:
+        for a in hung[:10]:
+            rep.violation("lexer:lexer-raised-or-hung", {"text": a[0][:300], "tokens": [], "accepted": a[1], "raw": a[2], "status": "no answer within 10 s"})
+        rep.traces = len(probe)
+        rep.evaluations = len(probe)
+        rep.rule = "termination probe only: the lexer did not answer within 10 s on some inputs, the full run was not started"
+        return rep.finish()
     recs = pmap(lex_case, args, limit=10.0, chunk=64)
     for i, r in enumerate(recs):
         if r.get("_error"):
